@@ -26,7 +26,7 @@ theorem C38_body_exact (env : Env) (acts : List Act) :
     bodyOf (runHandler env false acts).out = (runHandler env false acts).acc := by
   obtain ⟨g, hb, hh⟩ := good_run env false acts
   have := g.get hh
-  rw [hb, List.append_nil] at this
+  rw [hb rfl, List.append_nil] at this
   exact this
 
 /-- **C38_head_nobody**: the response to a HEAD request never carries DATA payload. -/
@@ -34,6 +34,15 @@ theorem C38_head_nobody (env : Env) (acts : List Act) :
     bodyOf (runHandler env true acts).out = [] := by
   obtain ⟨g, _, hh⟩ := good_run env true acts
   exact g.head hh
+
+/-- **C38_head_write_contract**: what `Write` reports for a HEAD request — once the bufio.Writer's flush has been the
+    call that sent the HEADERS (it then reports 0 bytes written), the error is sticky: every later Write fails with
+    io.ErrShortWrite and changes nothing (no frame, no accepted byte). -/
+theorem C38_head_write_contract (env : Env) (s : St) (p : List Nat) (hb : s.bwErr = true) :
+    (rwWriteHead env s p).wres = s.wres ++ [WRes.shortWrite] ∧ (rwWriteHead env s p).out = s.out ∧
+    (rwWriteHead env s p).acc = s.acc := by
+  unfold rwWriteHead
+  simp [hb]
 
 /-- Writes for a status that forbids a body are refused (`ErrBodyNotAllowed`), so they never count as
     accepted bytes: with C38_body_exact, a 1xx/204/304 response has no DATA payload. -/
@@ -64,7 +73,7 @@ theorem C38_status_headers (env : Env) (isHead : Bool) (acts : List Act) :
       (runHandler env isHead acts).out =
         Frame.headers ((lStatus, itoa (statusOf acts)) ::
           (encodeHeaders (sentSnap acts) (sortStrs ((sentSnap acts).map (·.1))) ++ autos)) es :: rest := by
-  have h := pa_finish env acts [] { isHead := isHead } ⟨rfl, rfl, rfl, rfl, rfl⟩
+  have h := pa_finish env acts [] { isHead := isHead } ⟨rfl, rfl, rfl, rfl, rfl, rfl⟩
   obtain ⟨_, es, rest, autos, ha, e⟩ := h
   exact ⟨es, rest, autos, ha, e⟩
 
